@@ -46,6 +46,10 @@ func (x *Exec) check(st *State, goal *Term, kind, clause, site, text string) {
 	} else {
 		o.PC = st.pc
 		o.Inputs = x.inputs
+		o.X = x
+		if kind == "postcondition" {
+			o.Outputs = x.outputs
+		}
 	}
 	x.obligs = append(x.obligs, o)
 	// continue under the assumption that the check holds
